@@ -458,8 +458,26 @@ pub fn stream(rng: &mut Rng, max_len: usize) -> (Vec<u8>, u32) {
         if s.len() >= max_len {
             break;
         }
-        let k = rng.below(12);
+        let k = rng.below(13);
         match k {
+            12 => {
+                // a valid frame whose own header / payload bytes look like preambles:
+                // byte 1 == 0xD3 (reserved bits 110100, length 768..=1023), and/or low length
+                // byte == 0xD3, payload starting with 0xD3 bytes
+                let (res, l): (u8, usize) = match rng.below(3) {
+                    0 => (0x34, rng.range(768, 1023) as usize),
+                    1 => (0x34, *rng.pick(&[979usize, 768, 1023])),
+                    _ => (if rng.bool() { 0x34 } else { 0 }, *rng.pick(&[211usize, 467, 723, 979])),
+                };
+                let mut p = rng.bytes(l);
+                let lead = rng.usize_below(4);
+                for b in p.iter_mut().take(lead) {
+                    *b = 0xD3;
+                }
+                s.extend(crc::frame_with_reserved(&p, res));
+                tags |= 1;
+                tags |= 1024;
+            }
             0 | 1 | 2 => {
                 // valid frame of random payload length (biased small)
                 let l = pick_len(rng);
@@ -599,7 +617,7 @@ fn pick_len(rng: &mut Rng) -> usize {
     }
 }
 
-pub const STREAM_TAGS: [&str; 10] = [
+pub const STREAM_TAGS: [&str; 11] = [
     "valid_random_frame",
     "valid_typed_frame",
     "garbage",
@@ -610,4 +628,5 @@ pub const STREAM_TAGS: [&str; 10] = [
     "nested_in_invalid_outer",
     "nested_in_valid_outer",
     "stray_preamble_before_frame",
+    "frame_with_preamble_lookalike_header",
 ];
